@@ -4,8 +4,10 @@ R-GRIDSTATE is decided by an abstract interpretation of `Grid.__init__` and the 
 setters over a finite configuration space: which of (extent, gpts, sampling) are defined, which
 lock flags are set, whether the assigned value is None.  Field values are symbolic terms
     E0 G0 S0 new   adjE(g, s)   adjG(e, s)   adjS(e, g)
-where an `adj*` term is produced only by a store whose element-wise right-hand side has been
-*verified* (term normal form, both endpoint arms) to be the defining formula of that quantity.
+where an `adj*` term is produced only by a store whose right-hand side has been *verified* to be
+the defining formula of that quantity: the stored value is kept as a lazily evaluated per-axis term
+(Interp.verify) and evaluated component by component for every assignment of the per-axis endpoint
+flags of a two-axis grid compatible with the flag tests taken on the path.
 All acyclic paths are enumerated; guards that are lock flags or None-tests are decided by the
 configuration, closeness tests (`np.allclose(new, old)`) fork and leave a fact on the true arm.
 """
@@ -13,12 +15,13 @@ from __future__ import annotations
 
 import ast
 import itertools
+import re
 from dataclasses import dataclass, field
 from typing import Optional
 
 from ..model import AnalysisError, ClassInfo, FuncInfo, dotted, norm_text, strip_docstring
-from ..rules.gridterms import (ArmNormalizer, describe_expected, elementwise, expected_grid_term,
-                               has_opaque_conditional, local_functions)
+from ..rules.gridterms import (ArmNormalizer, bind_loop_target, describe_expected, elementwise, expected_grid_term,
+                               has_opaque_conditional, local_functions, strip_key)
 from ..terms import Poly
 
 MOD = "abtem.core.grid"
@@ -36,6 +39,13 @@ UNDEFINE_LOCKED_IS_VIOLATION = True
 
 NONE = ("none",)
 UNK = ("unk",)
+# The endpoint flags are ONE FLAG PER AXIS.  Stores into extent/gpts/sampling are evaluated component by component
+# for every assignment of the flags of a two-axis grid (the smallest grid on which "the flag of this axis", "the flag
+# of the other axis", `any(flags)` and `all(flags)` are four different things).
+EP = ("endpoint",)
+EP_REV = ("endpoint", "rev")
+AXES = (0, 1)
+FLAG_ASSIGNMENTS = tuple(itertools.product((False, True), repeat=len(AXES)))
 
 
 def atom(kind: str, name: str):
@@ -53,6 +63,103 @@ def is_sym(v) -> bool:
 
 def kind_of(v) -> Optional[str]:
     return v[1] if is_sym(v) else None
+
+
+def _tag(v):
+    return v[0] if isinstance(v, tuple) and v else None
+
+
+def is_fl(v) -> bool:
+    """A boolean term over the per-axis endpoint flags: ("fl", "e", axis) | any/all(vector) | not | and | or."""
+    return _tag(v) == "fl"
+
+
+def is_flaglike(v) -> bool:
+    return v in (EP, EP_REV) or is_fl(v) or (_tag(v) == "comp" and is_flaglike(v[1]))
+
+
+def is_vector(v) -> bool:
+    """A value with one component per axis: a grid quantity, the flags, a lazily evaluated element-wise term."""
+    return is_sym(v) or v in (EP, EP_REV) or _tag(v) in ("ew", "vec", "ite")
+
+
+def is_scalar(v) -> bool:
+    return _tag(v) == "comp" or is_fl(v)
+
+
+def component(v, k: int):
+    if v == EP:
+        return ("fl", "e", k)
+    if v == EP_REV:
+        return ("fl", "e", len(AXES) - 1 - k)
+    return ("comp", v, k)
+
+
+def pending(kind: str, term, f, st):
+    """A value stored into a field whose formula is not (yet) the grid formula: it behaves as a quantity of its kind,
+    and a later store into the same field may complete it (`g = ceil(r/d)` ... `g = g + endpoint`).  It is decided
+    when the method that stored it returns."""
+    return ("atom", kind, f"unverified{kind}", _Opaque(term), _Opaque((f, st)))
+
+
+class _Opaque:
+    """Identity-hashed box (terms hold ast nodes and FuncInfo records, which are not hashable by value)."""
+
+    def __init__(self, item):
+        self.item = item
+
+
+def is_pending(v) -> bool:
+    return is_sym(v) and v[0] == "atom" and len(v) == 5
+
+
+def leaf_syms(v, expand: Optional[str] = None, out=None) -> list:
+    """The grid quantities a lazily evaluated term is built from (an unverified value of kind `expand` counts as
+    the term it was computed with)."""
+    out = [] if out is None else out
+    if is_pending(v) and kind_of(v) == expand:
+        leaf_syms(v[3].item, expand, out)
+    elif is_sym(v):
+        if v not in out:
+            out.append(v)
+    elif _tag(v) == "ew":
+        for _, x in v[2]:
+            leaf_syms(x, expand, out)
+    elif _tag(v) == "comp":
+        leaf_syms(v[1], expand, out)
+    elif _tag(v) == "vec":
+        for x in v[1]:
+            leaf_syms(x, expand, out)
+    elif _tag(v) == "ite":
+        leaf_syms(v[2], expand, out)
+        leaf_syms(v[3], expand, out)
+    return out
+
+
+def value_key(v, names: dict):
+    """Hashable identity of a lazily evaluated term up to the identity of the quantities it reads."""
+    if is_sym(v) and v in names:
+        return ("sym", names[v])
+    if is_pending(v):
+        return ("pending", value_key(v[3].item, names))
+    if is_sym(v):
+        return ("sym", kind_of(v))
+    t = _tag(v)
+    if t == "ew":
+        return ("ew", id(v[1]), tuple((n, value_key(x, names)) for n, x in v[2]), v[3].qualname)
+    if t == "comp":
+        return ("comp", value_key(v[1], names), v[2])
+    if t == "vec":
+        return ("vec", tuple(value_key(x, names) for x in v[1]))
+    if t == "ite":
+        return ("ite", value_key(v[1], names), value_key(v[2], names), value_key(v[3], names))
+    if t == "fl":
+        if v[1] == "e":
+            return v
+        if v[1] in ("any", "all", "not"):
+            return ("fl", v[1], value_key(v[2], names))
+        return ("fl", v[1], tuple(value_key(x, names) for x in v[2]))
+    return v
 
 
 def show(v) -> str:
@@ -79,9 +186,11 @@ class Path:
     status: str = "run"  # run | ret | raise
     retval: object = None
     trace: list = field(default_factory=list)
+    epconds: list = field(default_factory=list)  # (flag term, truth): tests on the endpoint flags taken on this path
 
     def fork(self) -> "Path":
-        return Path(dict(self.fields), dict(self.env), list(self.facts), self.status, self.retval, list(self.trace))
+        return Path(dict(self.fields), dict(self.env), list(self.facts), self.status, self.retval, list(self.trace),
+                    list(self.epconds))
 
 
 class Interp:
@@ -92,6 +201,8 @@ class Interp:
         self.term_instances: dict = {}  # (method qualname, field kind) -> (ok, where, detail)
         self.depth = 0
         self.cur: list[FuncInfo] = []
+        self.nesting = 0
+        self.symnames: dict = {}  # atom names of the grid quantities of the formula being verified
 
     # ------------------------------------------------------------------ attribute resolution
     def self_attr(self, attr: str, p: Path, seen=()):
@@ -122,6 +233,8 @@ class Interp:
                 return NONE
             if isinstance(e.value, bool):
                 return e.value
+            if isinstance(e.value, (int, float)):
+                return ("num", e.value)
             return ("other", repr(e.value))
         if isinstance(e, ast.Name):
             if e.id in p.env:
@@ -140,6 +253,8 @@ class Interp:
                 return ("nclose",) + v[1:]
             if v[0] == "nclose":
                 return ("close",) + v[1:]
+            if is_fl(v):
+                return v[2] if v[1] == "not" else ("fl", "not", v)
             return UNK
         if isinstance(e, ast.BoolOp):
             is_and = isinstance(e.op, ast.And)
@@ -155,6 +270,8 @@ class Interp:
                 return neutral
             if len(pending) == 1:
                 return pending[0]
+            if all(is_fl(v) for v in pending):
+                return ("fl", "and" if is_and else "or", tuple(pending))
             return UNK
         if isinstance(e, ast.Compare) and len(e.ops) == 1:
             a, b = self.eval(e.left, p), self.eval(e.comparators[0], p)
@@ -172,11 +289,40 @@ class Interp:
             return UNK
         ew = elementwise(e)
         if ew is not None:
-            # evaluated lazily: the formula is verified against the kind of the field it is stored into
-            return ("ew", e, tuple((name, self.eval(src, p)) for name, src in ew[1].items()), self.cur[-1])
+            # evaluated lazily, component by component: the formula is verified against the kind of the field it is
+            # stored into (free names of the element expression keep the value they have here)
+            elt, binding = ew
+            vals = {name: self.eval(src, p) for name, src in binding.items()}
+            for name, v in self.free_values(elt, p).items():
+                vals.setdefault(name, v)
+            return ("ew", elt, tuple(vals.items()), self.cur[-1])
         if isinstance(e, ast.Call):
             return self.eval_call(e, p)
-        if isinstance(e, (ast.BinOp, ast.Tuple, ast.List, ast.Subscript, ast.IfExp, ast.JoinedStr, ast.Dict)):
+        if isinstance(e, ast.List) and not e.elts:
+            return ("vec", ())  # a list to be filled by one append per axis
+        if isinstance(e, ast.IfExp):
+            t = self.truth(self.eval(e.test, p))
+            if isinstance(t, bool):
+                return self.eval(e.body if t else e.orelse, p)
+            if is_fl(t):
+                return ("ite", t, self.eval(e.body, p), self.eval(e.orelse, p))
+        if isinstance(e, ast.Subscript):
+            base = self.eval(e.value, p)
+            if is_vector(base):
+                k = self.axis_index(e.slice, p)
+                if k is not None:
+                    return component(base, k)
+                if base in (EP, EP_REV) and isinstance(e.slice, ast.Slice) and e.slice.lower is None and \
+                        e.slice.upper is None and isinstance(e.slice.step, ast.UnaryOp) and \
+                        ast.unparse(e.slice.step) == "-1":
+                    return EP_REV if base == EP else EP
+                raise AnalysisError(f"subscript of a grid quantity not supported: {ast.unparse(e)[:60]}")
+        if isinstance(e, (ast.BinOp, ast.IfExp, ast.UnaryOp)):
+            cl = self.closure(e, p)
+            if cl is not None:
+                return cl
+        if isinstance(e, (ast.BinOp, ast.Tuple, ast.List, ast.Subscript, ast.IfExp, ast.JoinedStr, ast.Dict,
+                          ast.UnaryOp)):
             return ("other", ast.unparse(e)[:60])
         raise AnalysisError(f"expression form {type(e).__name__} not supported: {ast.unparse(e)[:60]}")
 
@@ -189,9 +335,151 @@ class Interp:
             return False
         if is_sym(v):
             return True  # a validated grid quantity is a non-empty tuple
-        if isinstance(v, tuple) and v and v[0] in ("close", "nclose"):
+        if isinstance(v, tuple) and v and v[0] in ("close", "nclose", "fl"):
             return v
         return UNK
+
+    # ------------------------------------------------------------------ per-axis values
+    def free_values(self, e: ast.expr, p: Path) -> dict:
+        """Values of the local names and `self.x` reads of an expression (dotted name -> value)."""
+        out = {}
+        for n in ast.walk(e):
+            if isinstance(n, ast.Name) and isinstance(n.ctx, ast.Load) and n.id in p.env:
+                out[n.id] = p.env[n.id]
+            elif isinstance(n, ast.Attribute) and isinstance(n.value, ast.Name) and n.value.id == "self" and \
+                    isinstance(n.ctx, ast.Load):
+                out[f"self.{n.attr}"] = self.self_attr(n.attr, p)
+        return out
+
+    def closure(self, e: ast.expr, p: Path):
+        """Array-style arithmetic on whole grid quantities (`np.array(gpts) * sampling`) or scalar arithmetic on
+        components inside an axis loop, as a lazily evaluated term.  None when `e` involves no grid quantity."""
+        vals = self.free_values(e, p)
+        if not any(is_vector(v) or is_scalar(v) for v in vals.values()):
+            return None  # plain numbers / unrelated values: not a grid formula
+        if any(isinstance(n, ast.Subscript) for n in ast.walk(e)):
+            # `gpts[i]` inside an axis loop / `gpts[0]`: the addressed component becomes an operand of its own
+            interp, extra = self, {}
+
+            class _Components(ast.NodeTransformer):
+                def visit_Subscript(self, n):
+                    base = interp.eval(n.value, p) if dotted(n.value) else None
+                    if base is None or not is_vector(base):
+                        return self.generic_visit(n)
+                    k = interp.axis_index(n.slice, p)
+                    if k is None:
+                        raise AnalysisError(f"subscript of a grid quantity not supported: {ast.unparse(n)[:60]}")
+                    name = f"component_{len(extra)}_of_{ast.unparse(n.value).replace('.', '_')}"
+                    extra[name] = component(base, k)
+                    return ast.copy_location(ast.Name(id=name, ctx=ast.Load()), n)
+
+            import copy
+            e = _Components().visit(copy.deepcopy(e))
+            vals = {**self.free_values(e, p), **extra}
+        for n in ast.walk(e):
+            if isinstance(n, (ast.GeneratorExp, ast.ListComp, ast.SetComp, ast.DictComp, ast.Lambda, ast.NamedExpr,
+                              ast.Starred)):
+                raise AnalysisError(f"nested comprehension in an expression over grid quantities: "
+                                    f"{ast.unparse(e)[:60]}")
+            if isinstance(n, ast.Call) and (dotted(n.func) or "").startswith("self."):
+                raise AnalysisError(f"self method call nested in an expression over grid quantities: "
+                                    f"{ast.unparse(e)[:60]}")
+        return ("ew", e, tuple(vals.items()), self.cur[-1])
+
+    def axis_index(self, s: ast.AST, p: Path) -> Optional[int]:
+        """Axis addressed by a subscript: a literal index of a two-axis grid or the index of an axis loop."""
+        if isinstance(s, ast.UnaryOp) and isinstance(s.op, ast.USub) and isinstance(s.operand, ast.Constant):
+            s = ast.Constant(value=-s.operand.value) if isinstance(s.operand.value, int) else s
+        if isinstance(s, ast.Constant) and isinstance(s.value, int) and not isinstance(s.value, bool) and \
+                -len(AXES) <= s.value < len(AXES):
+            return s.value % len(AXES)
+        if isinstance(s, ast.Name) and isinstance(p.env.get(s.id), tuple) and p.env[s.id][:1] == ("idx",):
+            return p.env[s.id][1]
+        return None
+
+    def flag_value(self, t, flags) -> bool:
+        """Truth of a flag term under an assignment of the per-axis endpoint flags."""
+        op = t[1]
+        if op == "e":
+            return flags[t[2]]
+        if op in ("any", "all"):
+            comps = [self.flag_comp(t[2], a, flags) for a in AXES]
+            return any(comps) if op == "any" else all(comps)
+        if op == "not":
+            return not self.flag_value(t[2], flags)
+        if op == "and":
+            return all(self.flag_value(x, flags) for x in t[2])
+        if op == "or":
+            return any(self.flag_value(x, flags) for x in t[2])
+        raise AnalysisError(f"flag term {t!r} not understood")
+
+    def flag_comp(self, v, a: int, flags) -> bool:
+        """Component `a` of a vector of booleans derived from the endpoint flags."""
+        if v == EP:
+            return flags[a]
+        if v == EP_REV:
+            return flags[len(AXES) - 1 - a]
+        if is_fl(v):
+            return self.flag_value(v, flags)
+        if isinstance(v, tuple) and v and v[0] == "comp":
+            return self.flag_comp(v[1], v[2], flags)
+        if isinstance(v, tuple) and v and v[0] == "ew":
+            r = self.binder(v, a, flags)._truth(v[1])
+            if r is not None:
+                return r
+        raise AnalysisError("a test on the endpoint flags reads them in a form the analyser cannot decide")
+
+    def binder(self, v, a: int, flags) -> ArmNormalizer:
+        """Normalizer of the element expression of the lazy term `v` for axis `a` under the flag assignment."""
+        _, elt, vals, f = v
+        truth, polys = {}, {}
+        for name, val in vals:
+            if val == NONE:
+                raise AnalysisError(f"{f.short}: element-wise expression reachable with a None operand "
+                                    "(the helper's None guard is gone)")
+            if is_flaglike(val):
+                truth[name] = self.flag_comp(val, a, flags)
+            elif isinstance(val, tuple) and val and val[0] == "ew":
+                b = self.binder(val, a, flags)._truth(val[1])
+                if b is not None:
+                    truth[name] = b
+                else:
+                    polys[name] = self.comp_poly(val, a, flags)
+            elif is_vector(val) or is_scalar(val):
+                polys[name] = self.comp_poly(val, a, flags)
+        return ArmNormalizer(truth=truth, polys=polys, local_funcs=local_functions(f.node))
+
+    def comp_poly(self, v, a: int, flags) -> Poly:
+        """Component `a` of a grid-valued term as a polynomial in the per-axis atoms E<a>, G<a>, S<a>."""
+        if is_sym(v) and v in self.symnames:
+            return Poly.atom(f"{self.symnames[v]}{a}")
+        if is_pending(v):
+            return self.comp_poly(v[3].item, a, flags)  # the unverified value of the field being completed
+        if is_sym(v):
+            return Poly.atom(f"{kind_of(v)}{a}")
+        if is_flaglike(v):
+            return Poly.const(1 if self.flag_comp(v, a, flags) else 0)
+        if v == NONE:
+            raise AnalysisError("element-wise expression reachable with a None operand")
+        tag = v[0] if isinstance(v, tuple) and v else None
+        if tag == "num":
+            return ArmNormalizer().norm(ast.Constant(value=v[1]))
+        if tag == "comp":
+            return self.comp_poly(v[1], v[2], flags)
+        if tag == "ew":
+            nz = self.binder(v, a, flags)
+            b = nz._truth(v[1])
+            return Poly.const(1 if b else 0) if b is not None else nz.norm(v[1])
+        if tag == "vec":
+            if len(v[1]) != len(AXES):
+                raise AnalysisError("a list of per-axis values is not built by exactly one append per axis")
+            return self.comp_poly(v[1][a], a, flags)
+        if tag == "ite":
+            return self.comp_poly(v[2] if self.flag_value(v[1], flags) else v[3], a, flags)
+        raise AnalysisError(f"value {show(v)} inside a grid formula cannot be evaluated per axis")
+
+    def satisfiable(self, conds) -> bool:
+        return any(all(self.flag_value(t, fl) == want for t, want in conds) for fl in FLAG_ASSIGNMENTS)
 
     def _no_state_in_unknown(self, e: ast.expr, p: Path) -> None:
         """An undecidable test must not read the grid state (else the enumeration would invent paths)."""
@@ -231,9 +519,22 @@ class Interp:
             return UNK
         if short in ("array", "asarray", "float") and len(c.args) >= 1:
             return self.eval(c.args[0], p)
+        if short in ("tuple", "list", "int", "bool", "asanyarray") and len(c.args) == 1 and not c.keywords:
+            v = self.eval(c.args[0], p)
+            if is_vector(v) or is_scalar(v):
+                return v
+        if fn == "list" and not c.args and not c.keywords:
+            return ("vec", ())
+        if short == "reversed" and len(c.args) == 1 and self.eval(c.args[0], p) in (EP, EP_REV):
+            return EP_REV if self.eval(c.args[0], p) == EP else EP
         if short in ("all", "any") and len(c.args) == 1:
             v = self.eval(c.args[0], p)
             if short == "all" and isinstance(v, tuple) and v and v[0] in ("close", "nclose"):
+                return v
+            if v in (EP, EP_REV) or (_tag(v) == "ew" and v[2] and all(
+                    is_flaglike(x) or _tag(x) == "num" for _, x in v[2]) and any(is_flaglike(x) for _, x in v[2])):
+                return ("fl", short, v)  # decided per assignment of the per-axis flags
+            if is_fl(v):
                 return v
             return UNK
         # any other (non-self) call: no effect on the tracked state, unknown value
@@ -241,6 +542,9 @@ class Interp:
             for n in ast.walk(a):
                 if isinstance(n, ast.Call) and (dotted(n.func) or "").startswith("self."):
                     raise AnalysisError(f"self method call nested in an opaque call: {ast.unparse(c)[:60]}")
+        cl = self.closure(c, p)
+        if cl is not None:
+            return cl
         return ("other", ast.unparse(c)[:60])
 
     # ------------------------------------------------------------------ statements
@@ -272,6 +576,7 @@ class Interp:
             self.cur.pop()
             self.depth -= 1
         for o in outs:
+            self.settle(o)
             o.env = dict(p.env)
             if o.status == "ret":
                 o.status = "run"
@@ -280,16 +585,23 @@ class Interp:
         return outs
 
     def exec_block(self, stmts: list[ast.stmt], paths: list[Path]) -> list[Path]:
-        for st in stmts:
-            nxt: list[Path] = []
+        self.nesting += 1
+        try:
+            for st in stmts:
+                nxt: list[Path] = []
+                for p in paths:
+                    if p.status != "run":
+                        nxt.append(p)
+                    else:
+                        nxt.extend(self.exec_stmt(st, p))
+                paths = nxt
+                if len(paths) > 4096:
+                    raise AnalysisError("path explosion")
+        finally:
+            self.nesting -= 1
+        if self.nesting == 0:  # the body of the method the interpretation was started on is complete
             for p in paths:
-                if p.status != "run":
-                    nxt.append(p)
-                else:
-                    nxt.extend(self.exec_stmt(st, p))
-            paths = nxt
-            if len(paths) > 4096:
-                raise AnalysisError("path explosion")
+                self.settle(p)
         return paths
 
     def exec_stmt(self, st: ast.stmt, p: Path) -> list[Path]:
@@ -308,6 +620,16 @@ class Interp:
                     return self.call_method(m, c, p)
                 if fn and fn.startswith("super("):
                     raise AnalysisError("super() call in an analysed Grid method")
+                if isinstance(c.func, ast.Attribute) and isinstance(c.func.value, ast.Name) and \
+                        _tag(p.env.get(c.func.value.id)) == "vec":
+                    if c.func.attr != "append" or len(c.args) != 1 or c.keywords:
+                        raise AnalysisError(f"list of per-axis values changed other than by append: "
+                                            f"{ast.unparse(c)[:60]}")
+                    x = self.eval(c.args[0], p)
+                    if not (is_scalar(x) or _tag(x) in ("ew", "ite", "num")):
+                        raise AnalysisError(f"cannot evaluate the appended value {ast.unparse(c.args[0])[:60]}")
+                    p.env[c.func.value.id] = ("vec", p.env[c.func.value.id][1] + (x,))
+                    return [p]
                 self.eval(c, p)
                 return [p]
             raise AnalysisError(f"expression statement not supported: {norm_text(st)[:60]}")
@@ -328,12 +650,26 @@ class Interp:
                 return self.exec_block(st.body, [p])
             if t is False:
                 return self.exec_block(st.orelse, [p])
+            if is_flaglike(t) and not is_fl(t):
+                raise AnalysisError(f"truth value of the whole endpoint tuple in `{ast.unparse(st.test)[:60]}`")
             a, b = p, p.fork()
+            if is_fl(t):
+                # a test on the endpoint flags: each arm is followed under the flag assignments that select it
+                a.epconds.append((t, True))
+                b.epconds.append((t, False))
+                outs = []
+                if self.satisfiable(a.epconds):
+                    outs += self.exec_block(st.body, [a])
+                if self.satisfiable(b.epconds):
+                    outs += self.exec_block(st.orelse, [b])
+                return outs
             if isinstance(t, tuple) and t[0] == "close":
                 a.facts.append((t[1], t[2]))
             if isinstance(t, tuple) and t[0] == "nclose":
                 b.facts.append((t[1], t[2]))
             return self.exec_block(st.body, [a]) + self.exec_block(st.orelse, [b])
+        if isinstance(st, ast.For):
+            return self.exec_axis_loop(st, p)
         if isinstance(st, (ast.Assign, ast.AnnAssign)):
             targets = st.targets if isinstance(st, ast.Assign) else [st.target]
             if st.value is None:
@@ -362,11 +698,45 @@ class Interp:
         raise AnalysisError(f"statement {type(st).__name__} in {self.cur[-1].short if self.cur else '?'} not supported "
                             "by the grid-state interpreter")
 
+    def exec_axis_loop(self, st: ast.For, p: Path) -> list[Path]:
+        """A loop over the axes of the grid (zip of grid quantities / the flags, or an index loop): the body is
+        executed once per axis of the two-axis model grid with the loop names bound to that axis' components."""
+        f = self.cur[-1].short if self.cur else "?"
+        if st.orelse:
+            raise AnalysisError(f"{f}: for/else not supported by the grid-state interpreter")
+        binding = bind_loop_target(st.target, st.iter)
+        vals = {}
+        for name, src in binding.items():
+            if isinstance(src, ast.Constant) and src.value == "#index":
+                vals[name] = "idx"
+                continue
+            if isinstance(src, ast.Call) and dotted(src.func) == "range" and len(src.args) == 1 and not src.keywords:
+                n = src.args[0]
+                over_axes = (isinstance(n, ast.Call) and dotted(n.func) == "len" and len(n.args) == 1 and (
+                    is_vector(self.eval(n.args[0], p)) or dotted(n.args[0]) == "self")) or \
+                    self.eval(n, p) == ("other", "self._dimensions")
+                if not over_axes:
+                    raise AnalysisError(f"{f}: `{ast.unparse(st.iter)[:60]}` is not a loop over the grid axes")
+                vals[name] = "idx"
+                continue
+            v = self.eval(src, p)
+            if not is_vector(v):
+                raise AnalysisError(f"{f}: loop over `{ast.unparse(src)[:60]}`, which is not a grid quantity")
+            vals[name] = v
+        paths = [p]
+        for a in AXES:
+            for q in paths:
+                if q.status == "run":
+                    for name, v in vals.items():
+                        q.env[name] = ("idx", a) if v == "idx" else component(v, a)
+            paths = self.exec_block(st.body, paths)
+        return paths
+
     # ------------------------------------------------------------------ stores into E/G/S
     def eval_field_value(self, st: ast.stmt, attr: str, p: Path):
         kind = FIELDS[attr]
         v = self.eval(st.value, p)
-        if not (isinstance(v, tuple) and v and v[0] == "ew"):
+        if _tag(v) not in ("ew", "vec", "ite"):
             if v == NONE or (is_sym(v) and kind_of(v) == kind):
                 return v
             if is_sym(v):
@@ -376,47 +746,111 @@ class Interp:
                                    f"the {KIND_NAME[kind]} field", key_detail="kind")
                 return atom(kind, f"bad({show(v)})")
             raise AnalysisError(f"cannot evaluate the value stored into self.{attr}: {ast.unparse(st.value)[:60]}")
-        _, value, vals_t, f = v
-        elt = elementwise(value)[0]
-        vals = dict(vals_t)
-        if any(x == NONE for x in vals.values()):
-            raise AnalysisError(f"{f.short}: element-wise store into self.{attr} reachable with a None operand "
-                                "(the helper's None guard is gone)")
-        ep_names = [n for n, v in vals.items() if v == ("endpoint",)]
-        if len(ep_names) != 1:
-            raise AnalysisError(f"{f.short}: store into self.{attr} does not iterate the endpoint flags exactly once")
-        syms = {n: v for n, v in vals.items() if is_sym(v)}
-        if len(syms) != 2:
-            raise AnalysisError(f"{f.short}: store into self.{attr} is not a function of exactly two grid quantities")
-        kinds = {n: kind_of(v) for n, v in syms.items()}
-        ck = (id(value), tuple(sorted(kinds.items())))
-        if ck not in self.term_cache:
-            lf = local_functions(f.node)
-            res = []
-            for ep in (False, True):
-                nz = ArmNormalizer(truth={ep_names[0]: ep}, local_funcs=lf, atom_alias=dict(kinds))
-                res.append(nz.norm(elt))
-            self.term_cache[ck] = res
-        got_no, got_ep = self.term_cache[ck]
-        if has_opaque_conditional(got_no) or has_opaque_conditional(got_ep):
-            raise AnalysisError(f"{f.short}: conditional in the {KIND_NAME[kind]} formula is not on the endpoint flag")
-        exp_no, exp_ep = expected_grid_term(kind, False), expected_grid_term(kind, True)
-        ok = got_no == exp_no and got_ep == exp_ep
-        key = (f.qualname, kind)
-        detail_ok = f"{KIND_NAME[kind]} := {got_no.key()} | endpoint: {got_ep.key()}"
-        detail_bad = (f"`self.{attr}` is computed as {got_no.key()} (endpoint: {got_ep.key()}) in E=extent, G=gpts, "
-                      f"S=sampling of the arguments actually passed; the grid identity requires "
-                      f"{describe_expected(kind)} = {exp_no.key()} | {exp_ep.key()}")
-        prev = self.term_instances.get(key)
-        if prev is None or (prev[0] and not ok):
-            self.term_instances[key] = (ok, f.loc(value), detail_ok if ok else detail_bad)
+        f = self.cur[-1]
+        ok, syms = self.verify(v, kind, p.epconds, f, st)
         if not ok:
-            return atom(kind, f"bad{kind}({','.join(show(v) for v in syms.values())})")
-        byk = {kind_of(v): v for v in syms.values()}
+            return pending(kind, v, f, st)
+        return self.verified(kind, syms, f)
+
+    def verified(self, kind: str, syms: list, f: FuncInfo):
+        byk = {kind_of(x): x for x in syms}
         a, b = others(kind)
         if set(byk) != {a, b}:
             raise AnalysisError(f"{f.short}: verified formula but operand kinds {sorted(byk)} are inconsistent")
         return adj(kind, byk[a], byk[b])
+
+    def settle(self, p: Path) -> None:
+        """Decide the values stored with a formula that was not the grid formula at the time of the store, now that
+        the storing method is complete (under the flag tests of the whole path)."""
+        for attr, val in list(p.fields.items()):
+            if attr in FIELDS and is_pending(val):
+                kind = FIELDS[attr]
+                f, st = val[4].item
+                ok, syms = self.verify(val[3].item, kind, p.epconds, f, st, final=True)
+                p.fields[attr] = self.verified(kind, syms, f) if ok else atom(
+                    kind, f"bad{kind}({','.join(show(x) for x in syms)})")
+                p.trace.append(f"{attr}={show(p.fields[attr])}")
+
+    def verify(self, v, kind: str, epconds: list, f: FuncInfo, st: ast.stmt, final: bool = False):
+        """The value stored into a field is a lazily evaluated per-axis term.  It is evaluated for every assignment of
+        the per-axis endpoint flags that is compatible with the flag tests taken on the path, component by
+        component, and compared with the defining formula of the field in THAT AXIS' OWN flag.  -> (ok, operands);
+        a success is recorded at once, a failure when `final` (the storing method returns with this value)."""
+        attr = _field_of(kind)
+        syms = leaf_syms(v, kind)
+        if len(syms) != 2:
+            raise AnalysisError(f"{f.short}: store into self.{attr} is not a function of exactly two grid quantities")
+        names, used = {}, set()
+        for sv in syms:
+            n = kind_of(sv)
+            while n in used:
+                n += "'"
+            used.add(n)
+            names[sv] = n
+        ck = (kind, value_key(v, names), tuple((value_key(t, names), w) for t, w in epconds))
+        if ck not in self.term_cache:
+            self.symnames = names
+            rows = []
+            try:
+                for flags in FLAG_ASSIGNMENTS:
+                    if not all(self.flag_value(t, flags) == want for t, want in epconds):
+                        continue
+                    for a in AXES:
+                        got = self.comp_poly(v, a, flags)
+                        if has_opaque_conditional(got):
+                            raise AnalysisError(f"{f.short}: conditional in the {KIND_NAME[kind]} formula is not on "
+                                                "the endpoint flag")
+                        rows.append((flags, a, got, _expected_axis(kind, flags[a], a)))
+            finally:
+                self.symnames = {}
+            if not rows:
+                raise AnalysisError(f"{f.short}: store into self.{attr} on a path no flag assignment reaches")
+            self.term_cache[ck] = rows
+        rows = self.term_cache[ck]
+        bad = [r for r in rows if r[2] != r[3]]
+        ok = not bad
+        if not ok and not final:
+            return ok, syms
+        key = (f.qualname, kind)
+        if ok:
+            by = {}
+            for flags, a, got, _ in rows:
+                by.setdefault(flags[a], _axis_free(got.key()))
+            detail = (f"{KIND_NAME[kind]} := {by.get(False, '(unreached)')} | endpoint: {by.get(True, '(unreached)')}"
+                      f" [each axis by its own flag, {len(rows)} (flag assignment, axis) components]")
+        else:
+            flags, a, got, exp = bad[0]
+            uniform = [r for r in rows if len(set(r[0])) == 1]
+            why = (" — the formula is right only while all axes carry the same flag: the endpoint flag of another axis "
+                   "(or of the grid as a whole) decides this axis" if uniform and all(
+                       r[2] == r[3] for r in uniform) else "")
+            detail = (f"`self.{attr}` on a grid with endpoint={flags}: the axis-{a} component is computed as "
+                      f"{_axis_free(got.key())} in E=extent, G=gpts, S=sampling of the arguments actually passed; the "
+                      f"grid identity requires {describe_expected(kind)}, by the flag of the SAME axis "
+                      f"({flags[a]}): {_axis_free(exp.key())}{why}")
+        prev = self.term_instances.get(key)
+        if prev is None or (prev[0] and not ok):
+            self.term_instances[key] = (ok, f.loc(st.value), detail)
+        return ok, syms
+
+
+def _expected_axis(kind: str, endpoint: bool, a: int) -> Poly:
+    """gridterms.expected_grid_term in the atoms of axis `a`: extent = (gpts - endpoint) * sampling solved for the
+    quantity of `kind`."""
+    E, G, S = (Poly.atom(f"{k}{a}") for k in "EGS")
+    one = Poly.const(1)
+    n = (G - one) if endpoint else G
+    if kind == "E":
+        return n * S
+    if kind == "S":
+        return E * n.inverse()
+    q = Poly.atom(f"ceil({strip_key(E * S.inverse())})")
+    return q + one if endpoint else q
+
+
+def _axis_free(text: str) -> str:
+    """Display form: E0/G0/S0 -> E/G/S (the components of one axis only refer to that axis)."""
+    return re.sub(r"\b([EGS]'*)[0-9]\b", r"\1", text)
 
 
 # ---------------------------------------------------------------------------------------------
@@ -478,9 +912,15 @@ def run(ctx) -> None:
              "field is the verified formula of the two other final fields); the assigned field ends up holding the "
              "assigned value (sampling: possibly re-fitted to the integer gpts computed from it); a raising path leaves "
              "all three fields untouched")
-    ctx.rule("R-ADJUST-TERM", "every element-wise store into _extent/_gpts/_sampling normalises, for both values of the "
-             "endpoint flag and in terms of the kinds of the operands actually passed, to n*d | (n-1)*d, r/n | r/(n-1), "
-             "ceil(r/d) | ceil(r/d)+1")
+    ctx.rule("R-ADJUST-TERM", "every computed store into _extent/_gpts/_sampling is the relation extent = (gpts - "
+             "endpoint) * sampling solved for the stored quantity, PER AXIS and by that axis' own endpoint flag: the "
+             "stored value (comprehensions, preparatory rebindings of the operands under tests on the flags, axis loops "
+             "that build a list, array arithmetic, a store completed by a second store) is evaluated symbolically for "
+             "each of the four flag assignments of a two-axis grid that is compatible with the flag tests on the path "
+             "(any()/all()/flags[k] are decidable then), and each component's normal form, in terms of the kinds of the "
+             "operands actually passed, must be n*d | (n-1)*d, r/n | r/(n-1), ceil(r/d) | ceil(r/d)+1 for the flag of "
+             "the same axis, independent of the other axis' flag.  Necessary: a grid with mixed endpoint flags is a "
+             "legitimate grid (GridScan(endpoint=(True, False))), and every edit re-derives a field through these stores")
     ctx.rule("R-LOCK", "on every non-raising path a locked, defined field keeps its value (single-lock configurations); "
              "an assignment to a locked gpts/sampling raises before any store")
     ctx.rule("R-RECIPROCAL", "reciprocal_space_sampling is element-wise 1/(gpts*sampling) of the grid's own gpts and "
